@@ -72,6 +72,7 @@ _script = st.lists(st.one_of(_io_op, _io_op, st.fixed_dictionaries({'k': st.just
                              st.fixed_dictionaries({'k': st.just('raise')}), st.fixed_dictionaries({'k': st.just('interrupt')})), max_size=5)
 
 _state = {}
+MAX_READS = 7      # Sandbox.MAXIMUM_INPUTS as the harness configures it (100000 by default)
 
 
 def calibrate():
@@ -128,6 +129,7 @@ class Model:
         cal = calibrate()
         text, used = [], []
         self.ended_by = None
+        limit = MAX_READS      # the sandbox's guard against runaway input loops counts the reads of ONE execution
 
         def go(ops):
             for op in ops:
@@ -141,6 +143,9 @@ class Model:
                 elif k == 'input':
                     text.append(str(op['prompt']) + cal['suffix'])
                     used.append(self.queue.pop(0) if self.queue else cal['default'])
+                    if len(used) >= limit:
+                        self.ended_by = 'too-many-reads'      # that read is shown, taken and recorded, then refused (IOError)
+                        return True
                 elif k in ('raise', 'interrupt'):
                     self.ended_by = k
                     return True
@@ -186,6 +191,7 @@ class Stepper:
         MAIN_REPORT.full_clear()
         contextualize_report(BASE)
         self.sb = get_sandbox()
+        self.sb.MAXIMUM_INPUTS = MAX_READS
         self.sb.run()
         self.model = Model()
         self.executions = []      # (printed something?, queue op since previous execution?)
